@@ -9,12 +9,16 @@ guard; one event per run is recorded and TLC validates the trace against the out
 """
 from textwrap import dedent
 
-from .. import common, trace
+from .. import common, trace, tlc
 from .. import validator_common as vc
 
 
 def run_one(job):
     name, kind, data = vc.make_mutant(job)
+    return judge_bytes(data, name, kind)
+
+
+def judge_bytes(data, name, kind):
     r = vc.guarded_validate(data)
     ev = {"ev": "validate", "outcome": r["outcome"], "exc": r["exc"] or "", "explain": "na", "offset": "na", "hint": "na", "base": name, "kind": kind, "len": len(data)}
     detail = None
@@ -57,10 +61,51 @@ def run_one(job):
     return ev, detail
 
 
+# ---------------------------------------------------------------------------------- G direction
+# Structured malformed streams: every (abstract validator state, data unit) transition of Validator.tla for a few
+# configurations, as bytes from the independent writer.  C01 judges the verdicts; here only the C02 clauses apply
+# (no crash; every conformance error can be explained, located and hinted).
+G_CFGS = [
+    {"prof": "HQ", "ver": 3, "pat": "any", "fields": False},
+    {"prof": "LD", "ver": 3, "pat": "nomix", "fields": True},
+    {"prof": "HQ", "ver": 2, "pat": "althq", "fields": False},
+]
+
+
+def g_chunk(text):
+    vc.install_permissive_levels()
+    out = []
+    for st in vc.parse_chunk(text):
+        if not st["hist"]:
+            continue
+        data = vc.history_bytes(st["cfg"], st["hist"])
+        ev, detail = judge_bytes(data, "validator-history", "+".join(h["u"]["k"] for h in st["hist"]))
+        bad = ev["outcome"] == "crash" or "fail" in (ev["explain"], ev["offset"], ev["hint"])
+        out.append((ev, detail, {"cfg": st["cfg"], "hist": st["hist"]} if bad else None))
+    return out
+
+
+def g_direction(ctx):
+    from . import c01
+
+    cfgs = G_CFGS if ctx.quick else vc.ALL_CFGS[::3]
+    mc = vc.write_mc_module(cfgs)
+    res = tlc.run("ValidatorMC", c01.MC_CFG, dump=True, extra_files=[mc], timeout=3000)
+    ctx.add_tlc(res, "Validator.tla transitions (structured malformed streams)", {"Cfgs": cfgs})
+    outs = []
+    for part in common.pmap(g_chunk, vc.split_dump(res.dump_path, 128), chunksize=1):
+        outs += part
+    return outs
+
+
 def run(ctx):
     vc.install_permissive_levels()
     jobs = vc.mutant_jobs(ctx, 500, 12000)
     outs = common.pmap(run_one, jobs)
+    gouts = g_direction(ctx)
+    nmut = len(outs)
+    outs = outs + [(ev, detail) for ev, detail, case in gouts]
+    gcase = {nmut + i: case for i, (ev, detail, case) in enumerate(gouts)}
     records = []
     for tid, (ev, detail) in enumerate(outs):
         ev["tid"] = tid
@@ -81,7 +126,10 @@ def run(ctx):
         if b["tid"] == probe["tid"] or not b["alarm"]:
             continue
         ev, detail = outs[b["tid"]]
-        ctx.violation("C02|%s|%s" % (b["clause"], ev.get("sig", ev["exc"])), "%s on mutant %s/%s of %s: %s" % (b["clause"], ev["kind"], jobs[b["tid"]][1], ev["base"], detail), {"job": list(jobs[b["tid"]])})
+        if b["tid"] >= nmut:
+            ctx.violation("C02|%s|%s" % (b["clause"], ev.get("sig", ev["exc"])), "%s on the structured stream %s: %s" % (b["clause"], ev["kind"], detail), gcase[b["tid"]])
+        else:
+            ctx.violation("C02|%s|%s" % (b["clause"], ev.get("sig", ev["exc"])), "%s on mutant %s/%s of %s: %s" % (b["clause"], ev["kind"], jobs[b["tid"]][1], ev["base"], detail), {"job": list(jobs[b["tid"]])})
     if counts.get("accept", 0) == 0 or counts.get("reject", 0) < 10:
         raise RuntimeError("vacuous corpus: %s" % counts)
     distinct = len(set((ev["base"], ev["kind"], ev["outcome"], ev["exc"], ev["len"]) for ev in records))
@@ -93,6 +141,7 @@ def run(ctx):
             "rule": "one validator run per seeded mutant (16 mutator kinds incl. parse codes, offsets, header bits, splices, truncation, random bytes) of 21 valid base streams; distinct = different (base, mutator, outcome, exception class, length); non-trivial = all (identity mutants are 2%)",
             "exhaustive": False,
             "outcomes": counts,
+            "structured_histories_from_Validator_tla": len(gouts),
             "conformance_error_classes_reached": len(excs),
             "conformance_error_classes": excs,
             "out_of_scope": counts.get("oos", 0) + counts.get("timeout", 0),
@@ -107,6 +156,11 @@ def run(ctx):
 
 def replay(case):
     vc.install_permissive_levels()
+    if "hist" in case:
+        data = vc.history_bytes(case["cfg"], case["hist"])
+        ev, detail = judge_bytes(data, "validator-history", "")
+        bad = ev["outcome"] == "crash" or "fail" in (ev["explain"], ev["offset"], ev["hint"])
+        return {"event": ev, "detail": detail, "bytes_hex": data.hex(), "violations": [detail] if bad else []}
     ev, detail = run_one(tuple(case["job"]))
     name, kind, data = vc.make_mutant(tuple(case["job"]))
     bad = ev["outcome"] == "crash" or "fail" in (ev["explain"], ev["offset"], ev["hint"])
